@@ -17,6 +17,7 @@ func init() {
 		Thorough:   all("./..."),
 		Run: func(c *Ctx) {
 			c.ruleWKTTable("R-WKT-TABLE")
+			c.ruleResolverProp("R-RESOLVER-PROP", []string{"encoding/protojson"}, 3)
 			c.ruleKindContext("R-KIND-CONTEXT", []string{"encoding/protojson", "internal/encoding/json"}, 10)
 			c.ruleFloatBits("R-FLOATBITS", inPkgs("internal/encoding/json", "encoding/protojson"), 1)
 			c.ruleErrDrop("R-ERR-DROP", []string{"encoding/protojson"},
